@@ -645,6 +645,58 @@ def _boom(*a, **k):
     raise _InjectedFailure("verif: failure injected into the recording of the exception")
 
 
+class _InjectedStoreFailure(MemoryError):
+    pass
+
+
+def _boom_store(*a, **k):
+    raise _InjectedStoreFailure("verif: failure injected into the storing of the captured output")
+
+
+# the bookkeeping pedal does with the captured output when an execution has ended (inside Sandbox._stop_mocking):
+# a failure there (MemoryError on a huge output, a hook of the grading environment that raises) may reach the
+# instructor script, but must not keep the patches alive
+STORE_STEPS = [("sandbox", "append_output"), ("module", "_read_captured")]
+
+
+def store_steps():
+    return [(where, name) for where, name in STORE_STEPS
+            if hasattr(Sandbox if where == "sandbox" else sandbox_module, name)]
+
+
+def store_failure_histories(rng):
+    """SEARCH-ONLY stream (not in the Lean model: `_stop_mocking` is one primitive step there): every way an
+    execution can end x every tracer style x run / call, with a failure injected into each step that stores the
+    captured output; then a clean execution on the same sandbox."""
+    programs = [
+        ("print('hello')\n", ["N"], "normal"),
+        ("print('before')\nv = 1 / 0\n", ["R", desc("ZeroDivisionError", frames=[["S", 2]])], "c:zerodiv"),
+        ("import sys\nprint('bye')\nsys.exit(2)\n", ["R", desc("SystemExit", exc=False, sysexit=True,
+                                                                frames=[["S", 3]])], "sys.exit"),
+        ("print('x')\nraise KeyboardInterrupt\n", ["R", desc("KeyboardInterrupt", exc=False, frames=[["S", 2]])],
+         "builtin:KeyboardInterrupt"),
+        ("x = (\n", ["C", compile_failure_desc("x = (\n", MAIN_FILE)], "compile:unclosed-paren"),
+    ]
+    fn = "def f(*args, **kwargs):\n    print('in f')\n    return {}['k']\n"
+    hists = []
+    k = 0
+    for where, name in store_steps():
+        for style in STYLES:
+            for code, term, shape in programs:
+                hists.append([{"entry": "run", "style": style, "inject": False, "inject_store": name, "code": code,
+                               "term": term, "shape": shape},
+                              {"entry": "run", "style": STYLES[k % 3], "inject": False, "code": "print('later')\n",
+                               "term": ["N"], "shape": "normal"}])
+                k += 1
+            hists.append([{"entry": "run", "style": "none", "inject": False, "code": fn, "term": ["N"], "shape": "defs"},
+                          {"entry": "call", "style": style, "inject": False, "inject_store": name,
+                           "term": ["R", desc("KeyError", keyerr=True, frames=[["I", 1], ["S", 3]])],
+                           "shape": "c:keyerror"}])
+            hists.append([nested_normal_op(rng, style, False, NESTED_NORMAL_PROGRAMS[0])])
+            hists[-1][0]["inject_store"] = name
+    return hists
+
+
 def unwrap(value):
     if type(value) is SandboxResult:
         return object.__getattribute__(value, "value")
@@ -729,6 +781,11 @@ def run_history(ops):
             patcher = None
             if op.get("inject"):
                 patcher = unittest.mock.patch.object(sandbox_module, "ExpandedTraceback", _boom)
+                patcher.start()
+            elif op.get("inject_store"):
+                where = dict((n, w) for w, n in STORE_STEPS)[op["inject_store"]]
+                patcher = unittest.mock.patch.object(Sandbox if where == "sandbox" else sandbox_module,
+                                                     op["inject_store"], _boom_store)
                 patcher.start()
             try:
                 try:
@@ -951,7 +1008,7 @@ SKIPPED = {}     # oracle clauses not applied, per reason (reported in the evide
 
 def oracle_c04(op, o):
     """None, or (signature, what).  Only ops inside C04's quantifier are judged."""
-    if op.get("inject") or op["entry"] == "callmissing":
+    if op.get("inject") or op.get("inject_store") or op["entry"] == "callmissing":
         return None
     t = op["term"]
     if t[0] == "N":
@@ -1016,10 +1073,14 @@ def oracle_c05(op, o):
         sig["termination"] = how
         if op.get("inject"):
             sig["injected"] = True
+        if op.get("inject_store"):
+            sig["injected"] = "storing-the-output"
     return sig, "after %s() of a program %sending by %s (tracer style %s%s) not restored: %s" % (
         op["entry"].replace("callmissing", "call"), "importing another student file and " if op.get("nested") else "",
         how if t[0] == "N" else t[1]["cls"], op["style"],
-        ", recording failure injected" if op.get("inject") else "", ", ".join(leaked))
+        ", recording failure injected" if op.get("inject") else
+        (", failure injected into %s while the captured output is stored" % op["inject_store"]
+         if op.get("inject_store") else ""), ", ".join(leaked))
 
 
 ORACLES = {"C04": oracle_c04, "C05": oracle_c05}
